@@ -263,6 +263,9 @@ where
             .cloned()
             .collect::<Vec<Rc<dyn Constraint<U, E>>>>();
 
+        #[cfg(proto_vulcan_verif)]
+        crate::verif::schedule(&mut constraints);
+
         // Each constraint is first removed from the store and then run against the state.
         // If the constraint does not want to be removed from the store, it adds itself
         // back when it is run.
